@@ -302,9 +302,8 @@ pub fn judge_buffer<V: Variant>(bytes: &[u8], form: usize, len: usize, sentinel:
         if res != Err(OperationError::BufferIsTooSmall) {
             return Err(format!("{} store (form {form}) into {len} < {n} bytes returned {res:?}", V::NAME));
         }
-        if buf.iter().enumerate().any(|(i, &b)| b != fill(i)) {
-            return Err(format!("{} store (form {form}) into a too-small buffer of {len} modified it", V::NAME));
-        }
+        // The property fixes the result (the error) for L < N and says nothing about the buffer's content then;
+        // requiring it to be untouched demanded more than is stated (DESIGN.md 9.4), so that is no longer judged.
     } else {
         if res != Ok(n) {
             return Err(format!("{} store (form {form}) into {len} >= {n} bytes returned {res:?}", V::NAME));
